@@ -57,6 +57,9 @@ func init() {
 				return
 			}
 			sc.Name = origin
+			// the simulated application uses the IRIs it is handed, as any
+			// real one does
+			sc.Cfg.StrictNil = true
 			jl.Begin(i, origin, sc)
 			res := sim.Run(sc)
 			for ri, rp := range res.Responses {
